@@ -851,6 +851,95 @@ def gen_plateau_locus(src, with_annotation=True, chrom="chr1"):
             "hidden_genes": [] if with_annotation else genes}
 
 
+def gen_long_gene_locus(src, with_annotation=True, chrom="chr1", straddle=False):
+    """A sparsely covered gene longer than two splitting windows: 3-5 exons separated by introns of 130-170 bins
+    (33-43 kb), 1-3 full-length reads that are therefore processed in >= 3 regions and assigned to the same isoform in
+    each of them, short reads on single exons, optionally a pile-up on the first exon (so that depth 2-3 is still a
+    valley by the 1 % rule) and a compact gene behind the last exon."""
+    start_bin = src.int(2, 10)
+    n_ex = src.int(3, 5)
+    pos = start_bin * BIN + src.choice([0, 1, 100, 255])
+    chain = []
+    for i in range(n_ex):
+        ln = src.int(120, 400)
+        chain.append([pos + 1, pos + ln])
+        pos = pos + ln + src.int(145 if straddle and i == 0 else 130, 170) * BIN + src.choice([0, 1, 77, 255])
+    strand = src.choice(["+", "-"])
+    genes = [{"id": "L0", "chr": chrom, "strand": strand, "canon": "canon",
+              "transcripts": [{"id": "LT0", "exons": chain}]}]
+    if src.bool(0.5):
+        # an annotated isoform without one inner exon
+        j = src.int(1, n_ex - 2)
+        genes[0]["transcripts"].append({"id": "LT1", "exons": chain[:j] + chain[j + 1:]})
+    overrides = build.splice_overrides(chrom, chain, strand)
+    reads = []
+    k = 0
+    pile = True if straddle else src.bool(0.5)
+    n_long = 1 if straddle else (src.int(1, 3) if pile else 1)
+    for _ in range(n_long):
+        k += 1
+        blocks = [list(b) for b in chain]
+        blocks[0][0] += src.int(0, 30)
+        blocks[-1][1] -= src.int(0, 30)
+        reads.append(R.make_read("long%d" % k, chrom, blocks, flag=16 if strand == "-" else 0, mapq=60,
+                                 polya=25 if strand == "+" and src.bool(0.5) else 0))
+    if pile:
+        for j in range(src.int(520, 600) if straddle else src.int(310, 400)):
+            k += 1
+            a = chain[0][0] + (0 if j == 0 else src.int(0, 20))
+            reads.append(R.make_read("d%d" % k, chrom, [[a, chain[0][1] - src.int(0, 20)]],
+                                     flag=16 if strand == "-" else 0, mapq=60))
+    special = []
+    for _ in range(src.int(1, 4)):
+        k += 1
+        e = src.choice(chain)
+        a = e[0] + src.int(0, 30)
+        special.append("s%d" % k)
+        reads.append(R.make_read("s%d" % k, chrom, [[a, min(e[1], a + src.int(60, 200))]], flag=src.choice([0, 16]),
+                                 mapq=60))
+    if straddle:
+        # a compact gene X inside the first intron of L whose first exon contains the first split point (128 bins
+        # after the first covered bin; depth there stays <= 1 % of the pile-up): one full-length read crosses the
+        # split point, 2-3 reads with the complete intron chain start behind it, so that distinct reads support the
+        # same reference isoform in two processing regions
+        first_bin = (chain[0][0] - 1) // BIN
+        b0 = (first_bin + 128) * BIN                      # 0-based first position of the second region
+        x0 = b0 - src.int(20, 150)
+        cx = [[x0 + 1, x0 + src.int(650, 800)]]
+        for _ in range(src.int(1, 2)):
+            a = cx[-1][1] + src.int(150, 400)
+            cx.append([a + 1, a + src.int(120, 300)])
+        stx = src.choice(["+", "-"])
+        genes.append({"id": "X0", "chr": chrom, "strand": stx, "canon": "canon",
+                      "transcripts": [{"id": "XT0", "exons": cx}]})
+        overrides += build.splice_overrides(chrom, cx, stx)
+        k += 1
+        reads.append(R.make_read("x%d" % k, chrom, [list(b) for b in cx], flag=16 if stx == "-" else 0, mapq=60))
+        for _ in range(src.int(2, 3)):
+            k += 1
+            blocks = [list(b) for b in cx]
+            blocks[0][0] = b0 + BIN + src.int(5, 60)
+            special.append("x%d" % k)
+            reads.append(R.make_read("x%d" % k, chrom, blocks, flag=16 if stx == "-" else 0, mapq=60))
+    end = chain[-1][1]
+    if src.bool(0.6):
+        g0 = end + src.int(300, 2000)
+        c2 = [[g0 + 1, g0 + 300], [g0 + 801, g0 + 1100]]
+        st2 = src.choice(["+", "-"])
+        genes.append({"id": "S0", "chr": chrom, "strand": st2, "canon": "canon",
+                      "transcripts": [{"id": "ST0", "exons": c2}]})
+        overrides += build.splice_overrides(chrom, c2, st2)
+        for _ in range(src.int(2, 6)):
+            k += 1
+            reads.append(R.make_read("g%d" % k, chrom, [list(b) for b in c2], flag=16 if st2 == "-" else 0, mapq=60))
+        end = c2[-1][1]
+    length = end + src.int(800, 3000)
+    return {"chroms": [[chrom, length, src.int(1, 10 ** 6)]], "genes": genes if with_annotation else [],
+            "overrides": overrides, "reads": reads, "nfiles": 1,
+            "gtf": {"gene_records": True, "transcript_records": True}, "special": special,
+            "hidden_genes": [] if with_annotation else genes}
+
+
 def add_mirror_strand_clone(src, sc, g, reads_per_chain=(3, 5), name_prefix="m"):
     """Clone gene g (and the unannotated chains derived from it) onto a new chromosome at the SAME coordinates but on
     the opposite strand, with splice sites canonical for that strand, and add exact reads of every chain.  Two
